@@ -9,13 +9,14 @@ from props.rot_common import *
 
 PID = 'C15'
 MANIFEST = dict(
-    text='Machine-checked proof (Coq, all theorems closed under the global context) over the executable RotatingSink model: for every start instant and every non-decreasing timestamp sequence of one run (overwrite on, directory without files named stem.*.ext, live file initially empty) no file holds two statements with a rotation point of the schedule between them (C15_separates); a statement stays in the live file with everything written after it while no point passes and no size rotation fires (C15_shares); a rotated file carries strftime of the instant it was opened, equal suffixes get strictly increasing indices and names stay pairwise distinct (C15_name, C15_name_index_bump); the C14 theorems hold with time rotation enabled (C15_compose). The schedule premises are theorems for hourly/minutely rotation (points P0 + j*period; libc premise: the adjusted broken-down time lies in the future) and follow from the stated grid property of the libc-derived next-point function for daily rotation; that property is refuted for the real libc on DST-change days (daily_dst_grid_refuted, open finding C15-daily-dst). sched_drift_refuted replays the pre-fix behaviour (D7, fixed). Tied to the real RotatingFileSink by differential runs in GMT and five local zones including DST days (0 disagreements), monitor schedule computed independently with zoneinfo.',
+    text='Machine-checked proof (Coq, all theorems closed under the global context) over the executable RotatingSink model: for every start instant and every non-decreasing timestamp sequence of one run (overwrite on, directory without files named stem.*.ext, live file initially empty) no file holds two statements with a rotation point of the schedule between them (C15_separates); a statement stays in the live file with everything written after it while no point passes and no size rotation fires (C15_shares); a rotated file carries strftime of the instant it was opened, equal suffixes get strictly increasing indices and names stay pairwise distinct (C15_name, C15_name_index_bump); the C14 theorems hold with time rotation enabled (C15_compose). The schedule premises are theorems for hourly/minutely rotation (points P0 + j*period; libc premise: the adjusted broken-down time lies in the future). For daily rotation they follow from the grid property of the next-point function (C15_schedule_daily), which is a theorem in GMT for every code variant (timegm is arithmetic: C15_schedule_daily_gmt) and, in local time, a theorem for the code variant (c_plus24 = false: HH:MM converted with tm_isdst = -1, the HH:MM of the next day through mktime with tm_mday + 1, fixes/C15-daily-dst.diff) from premises on the calendar of libc only - local days do not go backwards, the instant mktime gives for HH:MM of day d lies in day d, no premise about DST (C15_schedule_daily_local); the variant that stands for the source tree is read from it on every run (T-src: rot_facts, TieC15.v, C15_code_variant). For the earlier variant (+ 24 h, tm_isdst of the current instant) the grid property is refuted with the real libc values of a DST-change day (daily_dst_grid_refuted, finding C15-daily-dst, repaired; daily_dst_code_example shows the repaired result). sched_drift_refuted replays the pre-fix behaviour (D7, fixed). Tied to the real RotatingFileSink by differential runs in GMT and five local zones, with daily schedules across DST changes and HH:MM inside the skipped / repeated hour (0 disagreements); the monitor computes the schedule independently with zoneinfo (a day whose HH:MM occurs twice: a rotation at either instant is accepted, the choice is that of the C library).',
     design='5 C15', technique='Coq invariant proof over an executable model + extracted-model/implementation differential correspondence in a scratch directory')
 TRUSTED = [
     'Coq 8.16.1 kernel (coqc, vm_compute for refutation / non-vacuity examples; no native_compute)',
-    'axioms: none (every theorem Closed under the global context); libc (strftime, localtime/gmtime + mktime/timegm) is a Section variable; for daily rotation the grid property of the derived next-point function is a stated premise',
+    'axioms: none (every theorem Closed under the global context); libc (strftime, localtime/gmtime + mktime/timegm) is a Section variable; for daily rotation in local time the premises on it are the calendar properties stated in C15_schedule_daily_local (they fail for an HH:MM inside a repeated hour, where mktime with tm_isdst = -1 is ambiguous: such days are covered by the correspondence and the monitor only)',
+    'T-src: tools/srcfacts.py rot_facts (clang 14 JSON AST skeleton of RotatingSink::_calculate_initial_rotation_tp) decides the model flag c_plus24; TieC15.v pins the skeleton by vm_compute; that the Gallina variant c_plus24 = false is faithful to that text is by inspection (and sampled by the correspondence on every run)',
     'extraction: ExtrOcamlBasic only, OCaml 4.13.1 ocamlopt, extract/driver.ml; oracle table filled from the real libc by harness/rot.cpp (direct libc calls, not through quill)',
-    'correspondence harness harness/rot.cpp (TZ set per case with setenv + tzset), g++ -fsanitize=address,undefined; the monitor computes the schedule with python zoneinfo (system tzdata)',
+    'correspondence harness harness/rot.cpp (TZ set per case with setenv + tzset; glibc mktime answers an ambiguous local time from the UTC offset remembered from its previous call: the harness primes it with mktime(localtime(t)) before every sink call at instant t and before the oracle calls for t), g++ -fsanitize=address,undefined; the monitor computes the schedule with python zoneinfo (system tzdata)',
     'modelled rather than verified: RotatingSink.h is re-stated in Gallina (Rotate/RotModel.v); the do/while that advances the hourly/minutely point is modelled by its closed form (period > 0); uint64 overflow of instants not modelled',
 ]
 
@@ -177,7 +178,7 @@ def run(tier):
             shapes['daily_local_dst_' + sh] = shapes.get('daily_local_dst_' + sh, 0) + 1
             if nontrivial(cs, i): shapes['daily_local_dst_' + sh + '_nontrivial'] = shapes.get('daily_local_dst_' + sh + '_nontrivial', 0) + 1
     return ck.finish(trusted=TRUSTED, samples=cases[:2] + cases[-2:],
-                     rule='one construct then write_log with non-decreasing injected timestamps (case line: see harness/rot.cpp); timestamps at g-1/g/g+1 ns of schedule points, gaps of 0.5/1/7.3 periods, DST days for daily/hourly in local zones, size rotation in the same period; non-trivial = at least two sink files hold statements and two statements share a file; distinct by case text',
+                     rule='one construct then write_log with non-decreasing injected timestamps (case line: see harness/rot.cpp); timestamps at g-1/g/g+1 ns of schedule points, gaps of 0.5/1/7.3 periods, DST days for daily/hourly in local zones (30% of the daily local cases put HH:MM at -61..+60 minutes around the wall clock of a change of the zone offset: skipped and repeated HH:MM), size rotation in the same period; non-trivial = at least two sink files hold statements and two statements share a file; distinct by case text',
                      evaluations=len(cases), distinct_nontrivial=nt, traces=len(cases) - len(dis) - len(mon),
                      extra_cov={'disagreements': len(dis), 'monitor_failures': len(mon), 'corpus_cases': len(cor), 'generator_histogram': hist,
                                 'daily_schedules_across_a_dst_change': shapes})
